@@ -63,16 +63,16 @@ def mk_area(rng):
     r = rng.random()
     if r < 0.12:
         return None, "none"
-    if r < 0.5:
+    if r < 0.4:
         cls = rng.choice([A.PQVArea4120V1, A.PQVArea4120V2, A.PQVArea4120V3])
         return cls(version=rng.choice([2015, 2018]), raise_merge_overlap=rng.random() < 0.5), "4120"
-    if r < 0.62:
+    if r < 0.5:
         lo = rng.randint(-32, 0) / 64
         return A.PQAreaSTATCOM(lo, lo + rng.randint(0, 48) / 64), "statcom"
     if r < 0.68:
-        # VDE 4130 (EHV): PQArea4130 + interpolated QV limits, evaluated per element like the polygon areas (oracle)
+        # VDE 4130 (EHV): PQArea4130 + QV limits np.interp over the tabulated points — modelled (C33.Model.A4130)
         cls = rng.choice([A.PQVArea4130V1, A.PQVArea4130V2, A.PQVArea4130V3])
-        return cls(vn_kv=rng.choice([380, 220]), raise_merge_overlap=False), "poly"
+        return cls(vn_kv=rng.choice([380, 220]), raise_merge_overlap=rng.random() < 0.4), "4130"
     if r < 0.76:
         return A.PQVArea4110(raise_merge_overlap=False), "poly"
     if r < 0.86:
@@ -95,6 +95,17 @@ def mk_qmodel(rng):
 
 
 VM_SPECIAL = [96.0 / 110, 127.0 / 110, 96.0 / 110 + 7.0 / 110, 127.0 / 110 - 7.0 / 110, 0.9, 1.05, 1.1]
+# the tabulated voltages of QVArea4130 (380 kV and 220 kV)
+VM_4130 = [350 / 380, (350 - 1e-3) / 380, 1.0, 400 / 380, 410 / 380, 420 / 380, 440 / 380, (440 + 1e-3) / 380,
+           193 / 220, 233.5 / 220, 240 / 220, 245 / 220, 253 / 220]
+
+
+def pq_term(a):
+    qf = lambda x: cq.q(float(x))
+    return ("{| p0 := %s; p1 := %s; a_min_q := %s; a_max_q := %s; q_under := %s; lf_ind := %s; lf_cap := %s; "
+            "k_low := %s; k_ind := %s; k_cap := %s |}") % (
+        qf(a.p_points_pu[0]), qf(a.p_points_pu[1]), qf(a.min_q_pu), qf(a.max_q_pu), qf(a.q_max_under_p_point),
+        qf(a.linear_factor_ind), qf(a.linear_factor_cap), qf(-0.05), qf(-0.1), qf(0.1))
 
 
 def area_term(area, kind, p_pu, q_pu, vm):
@@ -114,6 +125,11 @@ def area_term(area, kind, p_pu, q_pu, vm):
         return "(A4120 %s %s %s)" % (at, vt, cq.b(area.raise_merge_overlap)), None, True
     if kind == "statcom":
         return "(AStatcom %s %s)" % (cq.q(float(area.min_q_pu)), cq.q(float(area.max_q_pu))), None, True
+    if kind == "4130":
+        v = area.qv_area
+        pts = lambda xs, ys: cq.lst(["(%s, %s)" % (cq.q(float(x)), cq.q(float(y))) for x, y in zip(xs, ys)])
+        return "(A4130 %s %s %s %s)" % (pq_term(area.pq_area), pts(v.min_vm_points_pu, v.min_q_points_pu),
+                                        pts(v.max_vm_points_pu, v.max_q_points_pu), cq.b(area.raise_merge_overlap)), None, True
     # polygon: evaluate the shapely oracle for this point
     ps, qs, vs = pd.Series([p_pu]), pd.Series([q_pu]), pd.Series([vm])
     inside = bool(area.in_area(ps, qs, vs)[0])
@@ -162,6 +178,8 @@ def one_case(ctx, rng):
     use_series = rng.random() < 0.3
     for step in range(rng.choice([2, 3])):
         vms = [rng.choice(VM_SPECIAL) if rng.random() < 0.15 else rng.randint(218, 307) / 256 for _ in net.bus.index]
+        if akind == "4130":
+            vms = [rng.choice(VM_4130) if rng.random() < 0.3 else v for v in vms]
         net["res_bus"] = pd.DataFrame({"vm_pu": vms}, index=net.bus.index)
         if use_series:
             ctrl.p_series_mw = pd.Series([rng.randint(-8, 80) / 64 * float(s) for s in net.sgen.sn_mva.values], index=idx)
@@ -318,6 +336,7 @@ def run(ctx):
         w = compare(impl, mod, ctx)
         if w:
             ctx.disagreement("DER controller step differs from the model: " + w, desc)
+    check_4130_tables(ctx)
     # constants of the 4120 areas satisfy the hypotheses of C33_pq4120_in_area_sound
     for cls in (A.PQVArea4120V1, A.PQVArea4120V2, A.PQVArea4120V3):
         for ver in (2015, 2018):
@@ -327,6 +346,26 @@ def run(ctx):
             ctx.count("pq4120_constants_ok" if ok else "pq4120_constants_BROKEN")
             if not ok:
                 ctx.violation("spec", "PQArea4120 constants violate the hypotheses of C33_pq4120_in_area_sound", {"class": cls.__name__, "version": ver})
+
+
+def check_4130_tables(ctx):
+    """hypotheses of the 4130 theorems on the real objects: consistent PQArea4130 constants, strictly increasing voltage
+    tables of equal length with the q tables, and q_flexibility == the two np.interp calls at the tabulated voltages"""
+    for cls in (A.PQVArea4130V1, A.PQVArea4130V2, A.PQVArea4130V3):
+        for vn in (380, 220):
+            ar = cls(vn_kv=vn)
+            a, v = ar.pq_area, ar.qv_area
+            d = a.p_points_pu[1] - a.p_points_pu[0]
+            ok = a.linear_factor_ind <= 0 and a.min_q_pu <= -0.1 + d * a.linear_factor_ind + 1e-15 and 0.1 + d * a.linear_factor_cap <= a.max_q_pu + 1e-15
+            for xs, ys in ((v.min_vm_points_pu, v.min_q_points_pu), (v.max_vm_points_pu, v.max_q_points_pu)):
+                ok = ok and len(xs) == len(ys) >= 1 and bool(np.all(np.diff(xs) > 0))
+            fl = v.q_flexibility(None, np.asarray(v.min_vm_points_pu))
+            ok = ok and bool(np.allclose(fl[:, 0], v.min_q_points_pu, rtol=0, atol=1e-15))
+            fl = v.q_flexibility(None, np.asarray(v.max_vm_points_pu))
+            ok = ok and bool(np.allclose(fl[:, 1], v.max_q_points_pu, rtol=0, atol=1e-15))
+            ctx.count("area4130_tables_ok" if ok else "area4130_tables_BROKEN")
+            if not ok:
+                ctx.violation("spec", "PQVArea4130 tables / constants violate the hypotheses of the C33 4130 theorems", {"class": cls.__name__, "vn_kv": vn})
 
 
 def replay(ctx, rec):
